@@ -288,7 +288,7 @@ def tensor_of(spec):
 
 
 def gen_pt_spec(rng, length=None, rank=None, max_bond=4, dim=2, with_dt=None, with_tr=None,
-                named=None, caps="computed"):
+                named=None, caps="computed", square=False):
     """hand-built PT: random small dyadic entries (exact in binary64).
     with_tr: False / True ('both') / 'in' / 'out' (exactly one transform);
     caps: 'computed' (compute_caps()), 'custom' (user-defined cap vectors), 'none' (no caps)"""
@@ -303,10 +303,10 @@ def gen_pt_spec(rng, length=None, rank=None, max_bond=4, dim=2, with_dt=None, wi
     legs_in, legs_out = rho, rho
     if with_tr and rank == 4:
         if with_tr in ("both", "in"):
-            legs_in = rng.choice([rho, 3])
+            legs_in = rho if square else rng.choice([rho, 3])
             tin = tensor_spec(_rand_arr(rng, (rho, legs_in)))
         if with_tr in ("both", "out"):
-            legs_out = rng.choice([rho, 3])
+            legs_out = rho if square else rng.choice([rho, 3])
             tout = tensor_spec(_rand_arr(rng, (legs_out, rho)))
     mpos = []
     for k in range(n):
